@@ -1,12 +1,11 @@
-(* FWrap.v — textwrap.wrap(code, width) as build_fortran_definition uses it (CPython 3.12 textwrap.TextWrapper with its defaults:
-   drop_whitespace, break_long_words, break_on_hyphens, no indents, no max_lines), on texts whose only whitespace is the blank
-   and in which the hyphen rule of the chunk splitter never applies (generated Fortran code: a `-` is never between two
-   letters) — K compares the model's lines with the lines in the generated module, case by case.
+(* FWrap.v — fsic.fortran._wrap_code (fix 45adc65): textwrap.wrap(code, width, break_long_words=False, break_on_hyphens=False)
+   (CPython 3.12 textwrap.TextWrapper: drop_whitespace, no indents, no max_lines; chunks are the runs of whitespace / of
+   non-whitespace) followed by the cut of over-long lines after a parenthesis or comma, on texts whose only whitespace is the
+   blank — K compares the model's lines with the lines in the generated module, case by case.
 
      chunks_of     _split: maximal runs of blanks / of non-blanks
      fill          the inner loop of _wrap_chunks: chunks are added while the line does not exceed the width
-     long_end      _handle_long_word: where a chunk longer than the width is cut (after the last hyphen that fits, else at the
-                   space left)
+     split_long    the cut of a line that is still longer than the width
      wrap_chunks   the outer loop: one line per round; a blank chunk is dropped at the start of every line but the first and at
                    the end of every line
      wrap          the lines as strings
@@ -39,17 +38,7 @@ Fixpoint fill (width cur_len : nat) (cur : list str) (chs : list str) : list str
   | [] => (cur, cur_len, [])
   end.
 
-(* chunk.rfind('-', 0, space_left): position of the last hyphen among the first space_left characters *)
-Fixpoint rfind_hyphen (l : str) (pos limit : nat) (best : option nat) : option nat :=
-  match l with
-  | [] => best
-  | c :: r => if pos <? limit then rfind_hyphen r (S pos) limit (if ascii_eqb c "-" then Some pos else best) else best
-  end.
-Definition long_end (chunk : str) (space_left : nat) : nat :=
-  match rfind_hyphen chunk 0 space_left None with
-  | Some h => if (0 <? h) && existsb (fun c => negb (ascii_eqb c "-")) (firstn h chunk) then S h else space_left
-  | None => space_left
-  end.
+(* _handle_long_word with break_long_words=False: a chunk longer than the width goes on a line of its own, unbroken *)
 
 (* one round of the outer loop: (the chunks of the line in order, the chunks left) *)
 Definition wrap_round (width : nat) (first : bool) (chs : list str) : list str * list str :=
@@ -57,9 +46,7 @@ Definition wrap_round (width : nat) (first : bool) (chs : list str) : list str *
   let '(cur, cur_len, rest) := fill width 0 [] chs1 in
   let '(cur2, rest2) :=
     match rest with
-    | c :: r => if width <? length c
-                then let e := long_end c (width - cur_len) in (firstn e c :: cur, skipn e c :: r)
-                else (cur, rest)
+    | c :: r => if (width <? length c) && match cur with [] => true | _ => false end then (c :: cur, r) else (cur, rest)
     | [] => (cur, rest)
     end in
   let cur3 := match cur2 with c :: r => if all_blank c then r else cur2 | [] => [] end in
@@ -79,8 +66,31 @@ Fixpoint wrap_chunks (fuel width : nat) (first : bool) (chs : list str) : list (
       end
   end.
 
-Definition wrap (width : nat) (text : str) : list str :=
+(* textwrap.wrap(text, width, break_long_words=False, break_on_hyphens=False) *)
+Definition wrap_words (width : nat) (text : str) : list str :=
   map (fun line => concat line) (wrap_chunks (2 * length text + 2) width true (chunks_of text)).
+
+(* fsic.fortran._wrap_code (fix 45adc65): a line still longer than the width is cut after the last `(`, `)` or `,` among its first
+   `width` characters — always between two tokens — as often as needed *)
+Definition is_cut_char (c : ascii) : bool := ascii_eqb c "(" || ascii_eqb c ")" || ascii_eqb c ",".
+Fixpoint rfind_cut (l : str) (pos limit : nat) (best : option nat) : option nat :=
+  match l with
+  | [] => best
+  | c :: r => if pos <? limit then rfind_cut r (S pos) limit (if is_cut_char c then Some pos else best) else best
+  end.
+Fixpoint split_long (fuel width : nat) (line : str) : list str :=
+  match fuel with
+  | O => [line]
+  | S f => if width <? length line
+           then match rfind_cut line 0 width None with
+                | Some h => firstn (S h) line :: split_long f width (skipn (S h) line)
+                | None => [line]
+                end
+           else [line]
+  end.
+
+Definition wrap (width : nat) (text : str) : list str :=
+  flat_map (fun line => split_long (length line) width line) (wrap_words width text).
 
 (* ---- the whole text pipeline of build_fortran_definition for one equation / one index array: no oracle left ---- *)
 Definition equation_block (names : list str) (width : nat) (eq : str) : option str :=
